@@ -146,6 +146,50 @@ func VerifCachedClients(cl interface{}) map[hrpc.RegionClient]int {
 	return out
 }
 
+// VerifClientCache is a stand-alone connection cache (regionserver client ->
+// regions), the same type the client uses.
+type VerifClientCache struct {
+	c clientRegionCache
+}
+
+// VerifNewClientCache returns an empty connection cache.
+func VerifNewClientCache() *VerifClientCache {
+	logger := slog.New(slog.NewTextHandler(verifDiscard{}, &slog.HandlerOptions{
+		Level: slog.LevelError + 4}))
+	return &VerifClientCache{c: clientRegionCache{
+		logger:  logger,
+		regions: make(map[hrpc.RegionClient]map[hrpc.RegionInfo]struct{}),
+	}}
+}
+
+// Put is clientRegionCache.put.
+func (v *VerifClientCache) Put(addr string, r hrpc.RegionInfo,
+	newClient func() hrpc.RegionClient) hrpc.RegionClient {
+	return v.c.put(addr, r, newClient)
+}
+
+// Down is clientRegionCache.clientDown.
+func (v *VerifClientCache) Down(c hrpc.RegionClient) map[hrpc.RegionInfo]struct{} {
+	return v.c.clientDown(c)
+}
+
+// Del is clientRegionCache.del.
+func (v *VerifClientCache) Del(r hrpc.RegionInfo) { v.c.del(r) }
+
+// Snapshot returns the cached clients with their regions, atomically.
+func (v *VerifClientCache) Snapshot() map[hrpc.RegionClient][]hrpc.RegionInfo {
+	out := map[hrpc.RegionClient][]hrpc.RegionInfo{}
+	v.c.m.RLock()
+	for rc, regs := range v.c.regions {
+		out[rc] = make([]hrpc.RegionInfo, 0, len(regs))
+		for r := range regs {
+			out[rc] = append(out[rc], r)
+		}
+	}
+	v.c.m.RUnlock()
+	return out
+}
+
 // VerifNewScanner creates a scanner on top of an arbitrary RPCClient.
 func VerifNewScanner(c RPCClient, rpc *hrpc.Scan) hrpc.Scanner {
 	return newScanner(c, rpc, slog.New(slog.NewTextHandler(verifDiscard{}, nil)))
